@@ -777,9 +777,16 @@ pub fn child_e2e(args: &[String]) -> i32 {
     };
     let mut steps = vec![];
     let mut verdict = "ok".to_owned();
-    let bump = |secs: u64| {
-        let f = std::fs::OpenOptions::new().write(true).open(&cfg).unwrap();
+    // Every edit replaces the file atomically (write a sibling, set its time, rename it over the configuration):
+    // the reloader thread never sees a half-written or momentarily empty file - an empty document is a valid
+    // configuration without a refresh rate, after which the reloader rightly stops.
+    let replace = |text: &str, secs: u64| {
+        let tmp = dir.join("log4rs.yaml.new");
+        std::fs::write(&tmp, text).unwrap();
+        let f = std::fs::OpenOptions::new().write(true).open(&tmp).unwrap();
         let _ = f.set_modified(SystemTime::now() + Duration::from_secs(secs));
+        drop(f);
+        std::fs::rename(&tmp, &cfg).unwrap();
     };
     'run: {
         match wait_for("a.log", "m1") {
@@ -789,8 +796,7 @@ pub fn child_e2e(args: &[String]) -> i32 {
                 break 'run;
             }
         }
-        std::fs::write(&cfg, doc("b.log", "50 ms")).unwrap();
-        bump(10);
+        replace(&doc("b.log", "50 ms"), 10);
         match wait_for("b.log", "m2") {
             Some(p) => steps.push(json!({"changed file applied after polls": p})),
             None => {
@@ -800,11 +806,9 @@ pub fn child_e2e(args: &[String]) -> i32 {
         }
         if variant == 2 {
             // a document whose appender cannot be built (reported, dropped) before the one that does not parse at all
-            std::fs::write(&cfg, doc("b.log", "50 ms").replace("kind: file", "kind: file\n    bogus_key: 1")).unwrap();
-            bump(15);
+            replace(&doc("b.log", "50 ms").replace("kind: file", "kind: file\n    bogus_key: 1"), 15);
             std::thread::sleep(Duration::from_millis(300));
-            std::fs::write(&cfg, doc("b.log", "50 ms")).unwrap();
-            bump(17);
+            replace(&doc("b.log", "50 ms"), 17);
             match wait_for("b.log", "m2b") {
                 Some(p) => steps.push(json!({"after a document with a broken appender, the repaired one applied after polls": p})),
                 None => {
@@ -814,8 +818,7 @@ pub fn child_e2e(args: &[String]) -> i32 {
             }
         }
         // broken file: the last good configuration stays active
-        std::fs::write(&cfg, "appenders: [[[ not yaml").unwrap();
-        bump(20);
+        replace("appenders: [[[ not yaml", 20);
         std::thread::sleep(Duration::from_millis(300));
         log::info!("m3");
         std::thread::sleep(Duration::from_millis(50));
@@ -825,8 +828,7 @@ pub fn child_e2e(args: &[String]) -> i32 {
         }
         steps.push(json!("broken file: last good configuration kept"));
         // repaired: must be picked up, i.e. the reloader kept polling
-        std::fs::write(&cfg, doc("c.log", "50 ms")).unwrap();
-        bump(30);
+        replace(&doc("c.log", "50 ms"), 30);
         match wait_for("c.log", "m4") {
             Some(p) => steps.push(json!({"repaired file applied after polls": p})),
             None => {
